@@ -1,8 +1,63 @@
 #!/usr/bin/env python3-vt
-import json, sys, glob, jsonschema
-jsonschema.validate(json.load(open('/verif/MANIFEST.json')), json.load(open('/root/.vp/MANIFEST.schema.json')))
+"""Validate MANIFEST.json and every evidence file before committing.
+
+Beyond the two schemas this refuses evidence that does not describe a quiet run on the unchanged tree:
+a committed evidence file once came from a run made while a seeded change was applied in /repo
+(obligations 56, discharged 54, violations 2) - schema-valid, but not a record of the claimed level."""
+import glob
+import json
+import os
+import subprocess
+import sys
+
+import jsonschema
+
+bad = []
+man = json.load(open('/verif/MANIFEST.json'))
+jsonschema.validate(man, json.load(open('/root/.vp/MANIFEST.schema.json')))
 es = json.load(open('/root/.vp/EVIDENCE.schema.json'))
+claimed = {c['property_id']: c for c in man['checks']}
+seen = set()
 for f in sorted(glob.glob('/verif/evidence/*.json')):
-    jsonschema.validate(json.load(open(f)), es)
-    print('ok', f)
-print('manifest ok')
+    ev = json.load(open(f))
+    jsonschema.validate(ev, es)
+    pid = ev['property_id']
+    seen.add(pid)
+    cov = ev['coverage']
+    why = []
+    if os.path.basename(f) != pid + '.json':
+        why.append('file name does not match property_id %s' % pid)
+    if pid not in claimed:
+        why.append('evidence for a property MANIFEST.json does not claim')
+    elif claimed[pid]['level_claimed']['category'] != ev['level']:
+        why.append('level %s differs from the manifest (%s)' % (ev['level'], claimed[pid]['level_claimed']['category']))
+    if cov.get('obligations') != cov.get('discharged'):
+        why.append('discharged (%s) != obligations (%s)' % (cov.get('discharged'), cov.get('obligations')))
+    if ev.get('violations', 0) != 0:
+        why.append('violations = %s: written by a run that was not quiet' % ev.get('violations'))
+    nd = [o for o in cov.get('all_obligations', []) if o.get('status') != 'discharged']
+    if nd:
+        why.append('%d obligation(s) not discharged, first: %s|%s' % (len(nd), nd[0].get('rule'), nd[0].get('key')))
+    if len(cov.get('all_obligations', [])) != cov.get('obligations'):
+        why.append('all_obligations has %d entries, obligations says %s' % (len(cov.get('all_obligations', [])), cov.get('obligations')))
+    if why:
+        bad.append((f, why))
+        print('BAD', f)
+        for w in why:
+            print('    ' + w)
+    else:
+        print('ok', f, 'obligations=%d' % cov['obligations'])
+for pid in sorted(set(claimed) - seen):
+    bad.append((pid, ['no evidence file']))
+    print('BAD', pid, 'claimed in MANIFEST.json but has no evidence file')
+
+# the evidence must describe the committed /repo: refuse when its working tree is dirty
+st = subprocess.run(['git', '-C', '/repo', 'status', '--porcelain'], stdout=subprocess.PIPE, text=True).stdout.strip()
+if st:
+    bad.append(('/repo', ['working tree not clean']))
+    print('BAD /repo working tree is not clean; evidence written now would not describe the committed tree:\n' + st)
+
+if bad:
+    print('validation FAILED (%d problem(s))' % len(bad))
+    sys.exit(1)
+print('manifest ok, %d evidence files ok' % len(seen))
